@@ -43,8 +43,9 @@ type c04Scan struct {
 	cnt      *types.Var // round-robin counter (nil if unresolved)
 	// value-flow context of the current ChooseServer: parameters of same-module helpers that are
 	// bound to the receiver / to the receiver's list at the calls being followed
-	recvParams map[*ssa.Parameter]bool
-	listParams map[*ssa.Parameter]bool
+	holderOuter []*types.Var // fields of ServerPool that contain the slot holding the atomic.Value
+	recvParams  map[*ssa.Parameter]bool
+	listParams  map[*ssa.Parameter]bool
 }
 
 func c04Deref(t types.Type) types.Type {
@@ -230,15 +231,15 @@ func c04SSA(c *core.Ctx, info *c04Info) {
 		}
 		s.lists[im.list] = true
 	}
-	// ServerPool's atomic.Value
+	// ServerPool's atomic.Value (possibly inside a slot struct of its own)
+	hpath := c04HolderPath(c)
 	var holder *types.Var
-	if sp := namedType(c, c04pkg, "ServerPool"); sp != nil {
-		if st, ok := sp.Underlying().(*types.Struct); ok {
-			for i := 0; i < st.NumFields(); i++ {
-				if st.Field(i).Type().String() == "sync/atomic.Value" {
-					holder = st.Field(i)
-				}
-			}
+	if len(hpath) > 0 {
+		holder = hpath[len(hpath)-1]
+		for _, outer := range hpath[:len(hpath)-1] {
+			s.tracked[outer] = true
+			s.parts[outer] = true
+			s.holderOuter = append(s.holderOuter, outer)
 		}
 	}
 	if holder != nil {
@@ -553,6 +554,17 @@ func (s *c04Scan) reportHolder(holder *types.Var) {
 		bad, why = &s.reads[holder][0], "the atomic.Value holding the current balancer is read/copied directly"
 	case len(s.escapes[holder]) > 0:
 		bad, why = &s.escapes[holder][0], "the address of the atomic.Value holding the current balancer is used outside sync/atomic ("+s.escapes[holder][0].what+")"
+	}
+	for _, outer := range s.holderOuter {
+		switch {
+		case bad != nil:
+		case len(s.writes[outer]) > 0:
+			bad, why = &s.writes[outer][0], "the slot struct holding the current balancer is assigned as a whole"
+		case len(s.reads[outer]) > 0 && s.reads[outer][0].what == "read":
+			bad, why = &s.reads[outer][0], "the slot struct holding the current balancer is copied"
+		case len(s.escapes[outer]) > 0:
+			bad, why = &s.escapes[outer][0], "the address of the slot struct holding the current balancer escapes ("+s.escapes[outer][0].what+")"
+		}
 	}
 	if bad != nil {
 		c.Violate("R-C04-3", cons+"|accessed only through sync/atomic", s.posOf(*bad), why+" in "+c04FnName(bad.fn)+": a request selecting concurrently with a discovery update can observe a torn or stale balancer (data race)")
